@@ -161,6 +161,19 @@ func C03(c *core.Ctx) {
 			if es == nil {
 				c.Report(core.Finding{Sig: "invalid-accepted:" + name, Detail: fmt.Sprintf("%s: short form %s is outside the grammar but loads (as %+v)", name, shortTxt, ps.Services["a"].Ports), Replay: rep})
 			}
+			// the same near-miss on a service of another file that `a` extends: rejected there as well
+			if len(path) == 3 && path[0] == "services" && path[1] == "a" {
+				bb, _ := json.Marshal(map[string]interface{}{"services": map[string]interface{}{"b": map[string]interface{}{"image": "img", path[2]: short}}})
+				_ = os.MkdirAll(filepath.Join(work, "ext"), 0o755)
+				_ = os.WriteFile(filepath.Join(work, "ext", "base.yaml"), bb, 0o644)
+				d := skeletonDoc()
+				d["services"].(map[string]interface{})["a"] = map[string]interface{}{"extends": map[string]interface{}{"file": "ext/base.yaml", "service": "b"}}
+				mb, _ := json.Marshal(d)
+				c.Eval(name+"|extended-file|"+string(shortTxt), true)
+				if pe, ee := safeLoad(work, nil, []namedDoc{{Name: filepath.Join(work, "compose.yaml"), Content: string(mb)}}); ee == nil {
+					c.Report(core.Finding{Sig: "invalid-accepted-in-extended-file:" + name, Detail: fmt.Sprintf("%s: short form %s is outside the grammar but loads when it sits on a service extended from another file (as %+v / %+v / %+v)", name, shortTxt, pe.Services["a"].Ports, pe.Services["a"].Volumes, pe.Services["a"].Devices), Replay: rep})
+				}
+			}
 			return nil
 		}
 		longDoc := docWith(path, plainOf(cs["long"]))
@@ -186,6 +199,30 @@ func C03(c *core.Ctx) {
 				pso, eso := safeLoad(work, nil, []namedDoc{{Name: filepath.Join(work, "compose.yaml"), Content: shortDoc}, {Name: filepath.Join(work, "over.yaml"), Content: overDoc}})
 				plo, elo := safeLoad(work, nil, []namedDoc{{Name: filepath.Join(work, "compose.yaml"), Content: longDoc}, {Name: filepath.Join(work, "over.yaml"), Content: overDoc}})
 				rep["override"] = plainOf(ov)
+				// and with the short / long form on a base service of the same file that `a` extends and refines
+				if len(path) == 3 && path[0] == "services" && path[1] == "a" {
+					ext := func(v interface{}) string {
+						d := skeletonDoc()
+						svcs := d["services"].(map[string]interface{})
+						svcs["abase"] = map[string]interface{}{"image": "img", path[2]: v}
+						svcs["a"] = map[string]interface{}{"extends": map[string]interface{}{"service": "abase"}, path[2]: plainOf(ov)}
+						b, _ := json.Marshal(d)
+						return string(b)
+					}
+					pse, ese := safeLoad(work, nil, []namedDoc{{Name: filepath.Join(work, "compose.yaml"), Content: ext(short)}})
+					ple, ele := safeLoad(work, nil, []namedDoc{{Name: filepath.Join(work, "compose.yaml"), Content: ext(plainOf(cs["long"]))}})
+					c.Eval(name+"|extends|"+string(shortTxt), true)
+					switch {
+					case (ese == nil) != (ele == nil):
+						c.Report(core.Finding{Sig: "extends-differs:" + name, Detail: fmt.Sprintf("%s: on an extended base refined by the extending service, the short form gives %v and the long form gives %v", name, ese, ele), Replay: rep})
+					case ese == nil:
+						sortPorts(pse)
+						sortPorts(ple)
+						if a, b := projDump(pse), projDump(ple); a != b {
+							c.Report(core.Finding{Sig: "extends-differs:" + name, Detail: fmt.Sprintf("%s: short form %s and its long form on an extended base load to different models once the extending service refines one element: %s", name, shortTxt, firstDiff(a, b)), Replay: rep})
+						}
+					}
+				}
 				switch {
 				case (eso == nil) != (elo == nil):
 					c.Report(core.Finding{Sig: "override-differs:" + name, Detail: fmt.Sprintf("%s: with a later file refining one element, the short form gives %v and the long form gives %v", name, eso, elo), Replay: rep})
